@@ -28,7 +28,12 @@ def gen_thread(rng, tid, cpu, mode, nmarks, deltas=None):
     def small(n=None):
         n = rng.choice([0, 2, 4, 8, 12, 16]) if n is None else n
         lvl[0] += 12 + n
-        return "ev OB. now %s" % (bytes(rng.getrandbits(8) for _ in range(n)).hex() if n else "-")
+        # one clock read is sometimes shared by consecutive events (equal clocks are in order)
+        # (only in threads that never fill the buffer: after an automatic flush the library's own
+        # markers carry a later clock than a value read before the call)
+        clk = "same" if (mode == "soup" and rng.random() < 0.12 and ops
+                         and ops[-1].startswith(("ev OB. now", "ev OB. same"))) else "now"
+        return "ev OB. %s %s" % (clk, bytes(rng.getrandbits(8) for _ in range(n)).hex() if n else "-")
 
     def jumbo(total):
         # total = header(16) + data
